@@ -340,6 +340,7 @@ package leader
 //@   ensures C15.unwrap_returns_cause: result == e.Err
 //@ func (e *ValidationError) Error()
 //@   tags C15 C16
+//@   ensures C15.validation_errors_keep_their_permanent_wording: Includes(result, "invalid configuration")
 //@   ensures C15.message_includes_cause: e.Err != nil ==> Includes(result, ErrMsg(e.Err))
 //@ func (e *ValidationError) Unwrap()
 //@   tags C15 C16
